@@ -5,6 +5,8 @@
 From Coq Require Import List NArith Sorting.Permutation.
 From AGH Require Import Base.Run Base.Bytes Base.Dom Base.PathClean Model.ClientID Proofs.ClientID.
 From AGH Require Import Model.CertNames Proofs.CertNames.
+From AGH Require Import Model.ClientIDCache Proofs.ClientIDCache Model.ClientIDReconf Proofs.ClientIDReconf.
+From AGH Require Import Model.TLSSettings Proofs.TLSSettings.
 Import ListNotations.
 
 (** A returned non-empty ClientID: the protocol is DoH, DoT or DoQ; the id is a
@@ -334,3 +336,125 @@ Theorem C16_strict_both : forall p host sni h c v6 cli id,
    (host <> [] /\ exists x, immediate_sub cli host x /\ valid_label x /\ id = lower x)).
 Proof. exact strict_both. Qed.
 Print Assumptions C16_strict_both.
+
+(** * Round 4: the ClientID on its way to the request's processing, across
+    reconfigurations of the server (Model/ClientIDReconf.v).
+
+    A history is any list of: a request context is created and the hook runs
+    ([OArrive]); the handler of an existing context runs processInitial
+    ([OProcess]); Prepare installs new TLS settings and a new proxy, whose
+    request counter starts again ([OReconf]).  [history A q mid]: anything,
+    then request [q] arrives, then [mid], then [q] is processed. *)
+
+(** Plain DNS and DNSCrypt requests are never processed with a ClientID:
+    whatever was served before, under whatever settings, through any number of
+    reconfigurations ([A]), and whatever is served between the request's hook
+    and its processing, short of a reconfiguration. *)
+Theorem C16_reconf_plain_never_id : forall cf host0 strict0 A q mid,
+  plain (q_proto q) -> no_reconf mid ->
+  last_obs true cf (srv_init host0 strict0) (history A q mid) =
+  if q_early q then BEarly else BProcess [].
+Proof. exact plain_never_id. Qed.
+Print Assumptions C16_reconf_plain_never_id.
+
+(** No request inherits: one whose own hook extracted nothing is processed
+    with nothing (no bound on what lies in between). *)
+Theorem C16_reconf_no_inherit : forall cf host0 strict0 A q mid,
+  let stA := state_of true cf (srv_init host0 strict0) A in
+  hook_value (hook_of stA q) = [] -> no_reconf mid ->
+  last_obs true cf (srv_init host0 strict0) (history A q mid) = expected stA q.
+Proof. exact no_inherit_same_epoch. Qed.
+Print Assumptions C16_reconf_no_inherit.
+
+(** Every request is processed with exactly what its own hook extracted under
+    the settings in force when it arrived (or is refused there, or returns
+    before the ClientID is read), with fewer than 1024 steps in between. *)
+Theorem C16_reconf_handover_exact : forall host0 strict0 A q mid,
+  let stA := state_of true server_cache_conf (srv_init host0 strict0) A in
+  no_reconf mid -> (length mid < 1024)%nat ->
+  last_obs true server_cache_conf (srv_init host0 strict0) (history A q mid) = expected stA q.
+Proof. exact handover_server. Qed.
+Print Assumptions C16_reconf_handover_exact.
+
+(** For every history without any premise: a non-empty ClientID that a request
+    is processed with was extracted by the hook from some request of this
+    server (and is therefore a well-formed path or server-name label, by
+    C16_sound). *)
+Theorem C16_reconf_id_extracted : forall cl cf host0 strict0 ops i id,
+  let st := state_of cl cf (srv_init host0 strict0) ops in
+  snd (process st i) = BProcess id -> id <> [] ->
+  exists p, In p (s_reqs st) /\ p_res p = CidOk id.
+Proof. exact processed_id_extracted. Qed.
+Print Assumptions C16_reconf_id_extracted.
+
+(** The tree before "dnsforward: forget saved ClientIDs when a new proxy is
+    installed": Prepare left the cache as it was, and the first plain request
+    of the new proxy was processed as the first DoT client of the old one. *)
+Theorem C16_reconf_stale_id_refuted :
+  exists A q mid,
+    plain (q_proto q) /\ no_reconf mid /\
+    last_obs false server_cache_conf (srv_init b_host false) (history A q mid) = BProcess b_alice.
+Proof. exact stale_id_without_clear_refuted. Qed.
+Print Assumptions C16_reconf_stale_id_refuted.
+
+(** [no_reconf mid] is needed: a context of the old proxy still in flight
+    while Prepare runs is processed under a RequestID that the new proxy gives
+    out again (reported to the lead; not driven by the harness). *)
+Theorem C16_reconf_inflight_witness :
+  last_obs true server_cache_conf (srv_init b_host false)
+    [OArrive q_udp; OReconf b_host false; OArrive q_dot_alice; OProcess 0%nat]
+  = BProcess b_alice.
+Proof. exact inflight_across_reconf_witness. Qed.
+Print Assumptions C16_reconf_inflight_witness.
+
+(** * Round 4: the strict flag through POST /control/tls/configure
+    (Model/TLSSettings.v). *)
+
+(** Whatever a request says and however the call ends, the fields that are
+    not accepted from the frontend stay: strict_sni_check, the cipher
+    override, allow_unencrypted_doh, the DNSCrypt file and port. *)
+Theorem C16_tls_configure_keeps_private : forall m rs,
+  private_of (m_conf (run_configure true m rs)) = private_of (m_conf m).
+Proof. exact configure_run_keeps_private. Qed.
+Print Assumptions C16_tls_configure_keeps_private.
+
+(** ... so the DNS server is told to check strictly exactly when encryption
+    is on and the configuration file says so, after any number of calls. *)
+Theorem C16_tls_strict_handed_over : forall m rs,
+  option_map snd (dns_tls (m_conf (run_configure true m rs))) =
+  if t_enabled (m_conf (run_configure true m rs)) then Some (t_strict (m_conf m)) else None.
+Proof. exact strict_handed_over. Qed.
+Print Assumptions C16_tls_strict_handed_over.
+
+Theorem C16_tls_configure_takes_public : forall ks m r,
+  sets (outcome_of ks m r) = true ->
+  public_of (m_conf (configure_mgr ks m r)) =
+  public_of (with_saved_key m r).
+Proof. exact configure_takes_public. Qed.
+Print Assumptions C16_tls_configure_takes_public.
+
+Theorem C16_tls_configure_rejected_unchanged : forall ks m r,
+  sets (outcome_of ks m r) = false -> configure_mgr ks m r = m /\ changed_of ks m r = false.
+Proof. exact configure_rejected_unchanged. Qed.
+Print Assumptions C16_tls_configure_rejected_unchanged.
+
+(** Saving the settings in force changes nothing and is not reported as a
+    change (no rewrite of the configuration file, no web server restart). *)
+Theorem C16_tls_resend_noop : forall m avail pair_ok,
+  m_conf (configure_mgr true m (resend m avail pair_ok)) = m_conf m /\
+  changed_of true m (resend m avail pair_ok) = false.
+Proof. exact resend_is_noop. Qed.
+Print Assumptions C16_tls_resend_noop.
+
+(** The tree before "home: keep strict_sni_check when the TLS settings are
+    saved": one save of the settings in force and the DNS server is told not to
+    check. *)
+Theorem C16_tls_strict_lost_refuted :
+  exists m r,
+    t_strict (m_conf m) = true /\ sets (outcome_of false m r) = true /\
+    r = resend m true true /\
+    t_strict (m_conf (configure_mgr false m r)) = false /\
+    option_map snd (dns_tls (m_conf (configure_mgr false m r))) = Some false /\
+    changed_of false m r = true.
+Proof. exact strict_lost_without_keep_refuted. Qed.
+Print Assumptions C16_tls_strict_lost_refuted.
